@@ -43,9 +43,20 @@ def run(tier):
             mu2 = inv.calculate_posterior_mean(th)
             ev = float(inv.marginal_likelihood(th))
             ev2, g = inv.marginal_likelihood_gradient(th)
+            # the same calls again, in another order: results must not depend on what was called before (no state carried over)
+            mu2b = inv.calculate_posterior_mean(th)
+            mu2c = inv.calculate_posterior_mean(th)
+            mu_b, Sig_b = inv.calculate_posterior(th)
+            ev_b = float(inv.marginal_likelihood(th))
+            ev2_b, g_b = inv.marginal_likelihood_gradient(th)
+            repeat_ok = (np.array_equal(mu2b, mu2) and np.array_equal(mu2c, mu2) and np.array_equal(mu_b, mu) and np.array_equal(Sig_b, Sig)
+                         and ev_b == ev and float(ev2_b) == float(ev2) and np.array_equal(g_b, g))
         except Exception as ex:
             ck.violation("GpLinearInverter raised on a valid problem", {**idn, "error": repr(ex)[:300]}, site="GpLinearInverter")
             continue
+        if not repeat_ok:
+            ck.violation("results do not depend on which methods were called before (repeated calls return the same values)",
+                         {**idn, "first_mean_only": mu2, "second_mean_only": mu2b, "third_mean_only": mu2c}, site="GpLinearInverter:repeat")
         want_mu, want_S, prior = G.rvec(c["mean"]), G.rmat(c["cov"]), G.rmat(c["prior"])
         ys = float(np.max(np.abs(y)) + 2)
         if not (GE.close(mu, want_mu, ys) and GE.close(mu2, want_mu, ys)):
